@@ -24,6 +24,7 @@ def parse_pair_trace(t):
 
 class C04(Prop):
     id = 'C04'
+    props_files = ['C04', 'C04b']
     engine_desc = ('E4 two real WebSockets (client, server) joined by in-memory reliable ordered byte channels under a deterministic scheduler with a reactive fair tail; '
                    'each endpoint run is replayed on the model as an E2 case (Protocol.run_ops)')
     rule = ('schedules: exhaustive interleavings of {write text, write binary, ping, flush, read, close} on both sides up to a bounded length with byte-granular deliveries (1, 2, all) and write WouldBlock windows, '
